@@ -1,5 +1,5 @@
 """Per-property checks. Each CHECKS[id](tier, seed) returns the exit code."""
-import json, os, time, subprocess, sys, glob, shutil
+import json, os, re, time, subprocess, sys, glob, shutil
 import vlib
 from vlib import (ToolError, build, run_edges, run_tlc, write_cfg, outdir, Verdict, judge_edges, write_evidence,
                   write_tlc_counterexample, SPECS, ROOT, OUT, binpath)
@@ -150,6 +150,8 @@ def check_C08(tier, seed):
         for prof in ('dev', 'release'):
             run_inst_suite('C08', v, acc, 'C08-inst-%s-%s' % (var, prof), 'MCInst', c, w, d, seed, owns, ['C08'],
                            invariants=inv, properties=props_, profile=prof)
+    # Binding B: recorded random histories of the real instance validated against TraceInstance.tla
+    run_inst_traces('C08', v, acc, ['pst', 'clk', 'flt', 'out.len'], tier, seed, variants=('A', 'B', 'D'))
     return finish('C08', tier, seed, 'model_checking', v, acc, t0, EDGE_RULE,
                   COMMON_ASSUME + ['depth-bounded exhaustive exploration of the host-call alphabet (Announces from a better and a worse master '
                                    'incl. duplicate/stale/skipped sequence ids, all timers, BMCA, run-time slave-only and quality changes) for '
@@ -191,10 +193,11 @@ def check_C05(tier, seed):
     owns = ['pst', 'ppi', 'gm', 'steps', 'tp', 'path', 'clk', 'snap.rm']
     base = dict(INST_CONST)
     q = tier == 'quick'
-    def consts(pcfg, cls, steps, gset, snd, prior, multi=False, so=(False,), rounds=1, so0=False):
+    def consts(pcfg, cls, steps, gset, snd, prior, multi=False, so=(False,), rounds=1, so0=False, late=False):
         c = dict(base)
         c.update({'PCfg': ('<-', pcfg), 'ClsSet': tla_set(cls), 'StepSet': tla_set(steps), 'GSet': tla_set(gset), 'SndSet': tla_set(snd),
-                  'PriorSet': tla_set(prior), 'Multi': multi, 'SoSet': tla_set(so), 'Rounds': rounds, 'SO0': so0})
+                  'PriorSet': tla_set(prior), 'Multi': multi, 'SoSet': tla_set(so), 'Rounds': rounds, 'SO0': so0,
+                  'LateSet': ('<-', 'Late_All' if late else 'Late_None')})
         return c
     w2 = world([e2e(), e2e()])
     suites = []
@@ -204,6 +207,7 @@ def check_C05(tier, seed):
             ('master-only', consts('PCfg_B', [6, 248], [0, 1], [1, 7, 8], [3, 7], ['L', 'M'], so=(False, True)), world([e2e(), e2e(mo=True)]), 'release'),
             ('multi', consts('PCfg_A', [248], [0, 1], [1, 7, 8], [3, 7], ['L'], multi=True), w2, 'dev'),
             ('second-round', consts('PCfg_A', [6, 248], [0, 1, 2], [0, 1, 7, 8], [3, 7], ['L', 'M'], rounds=2), w2, 'dev'),
+            ('late-masters', consts('PCfg_A', [6, 248], [0, 1], [1, 7, 8], [3, 7], ['L', 'M'], rounds=2, late=True), w2, 'dev'),
             ('three-ports', consts('PCfg_T', [248], [0, 1], [1, 8], [3, 7], ['L', 'M']), world([e2e(), e2e(), e2e()]), 'dev'),
         ]
     else:
@@ -214,6 +218,9 @@ def check_C05(tier, seed):
             ('master-only-dev', consts('PCfg_B', [6, 248], [0, 1, 254], [0, 1, 7, 8], [3, 7], ['L', 'M']), world([e2e(), e2e(mo=True)]), 'dev'),
             ('multi', consts('PCfg_A', [6, 248], [0, 1, 2], [0, 1, 3, 7, 8], [3, 7], ['L', 'M'], multi=True), w2, 'dev'),
             ('second-round', consts('PCfg_A', [6, 248], [0, 1, 2, 254], [0, 1, 3, 7, 8], [3, 7], ['L', 'M'], rounds=2), w2, 'dev'),
+            ('late-masters', consts('PCfg_A', [6, 248], [0, 1, 2], [0, 1, 3, 7, 8], [3, 7], ['L', 'M'], rounds=2, late=True), w2, 'dev'),
+            ('late-masters-multi', consts('PCfg_A', [248], [0, 1], [1, 7, 8], [3, 7], ['L'], multi=True, rounds=2, late=True), w2, 'dev'),
+            ('late-three-ports', consts('PCfg_T', [248], [0, 1], [1, 8], [3, 7], ['L'], rounds=2, late=True), world([e2e(), e2e(), e2e()]), 'dev'),
             ('three-ports', consts('PCfg_T', [6, 248], [0, 1, 2], [0, 1, 7, 8], [3, 7], ['L', 'M']), world([e2e(), e2e(), e2e()]), 'dev'),
             ('slave-only-start', consts('PCfg_A', [248], [0, 1, 254], [0, 1, 7, 8], [3, 7], ['L'], so0=True), world([e2e(), e2e()], so=True), 'dev'),
         ]
@@ -228,6 +235,8 @@ def check_C05(tier, seed):
         p = os.path.join(outdir('replay', 'C05-laws'), 'laws.txt')
         open(p, 'w').write(text[-5000:])
         v.add({'kind': 'tlc', 'key': 'tlc:laws', 'detail': 'a law of the data set comparison is false on the finite domain', 'replay': p})
+    # Binding B: recorded random histories of the real instance validated against TraceInstance.tla
+    run_inst_traces('C05', v, acc, ['pst', 'ppi', 'gm', 'steps', 'tp', 'path', 'clk'], tier, seed, variants=('A', 'B', 'D'))
     return finish('C05', tier, seed, 'model_checking', v, acc, t0,
                   'TLC enumerates every case of the configured lattice (own clockClass x prior port states x per-port qualified candidates '
                   '(sender below/above the receiver, grandmaster record differing from the own data set in the first deciding attribute of '
@@ -269,7 +278,7 @@ def check_C06(tier, seed):
     inv = ['NeedTwo', 'NeverUnqualified', 'Expires', 'Sticks']
     owns = ['pst', 'ppi', 'gm', 'steps', 'snap.fml', 'snap.rm']
     base = dict(INST_CONST)
-    base.update({'PCfg': ('<-', 'PCfg_E'), 'StepsOf255': 255})
+    base.update({'PCfg': ('<-', 'PCfg_E'), 'StepsOf255': 255, 'Start2': 65534, 'Sibling': False})
     w1 = world([e2e()])
     def c(masters, **kw):
         d = dict(base)
@@ -279,6 +288,10 @@ def check_C06(tier, seed):
     run_inst_suite('C06', v, acc, 'C06-two-masters', 'MCFm', c([2, 9]), w1, 8 if q else 10, seed, owns, ['C06'], invariants=inv)
     run_inst_suite('C06', v, acc, 'C06-one-master-deep', 'MCFm', c([2]), w1, 9 if q else 13, seed, owns, ['C06'], invariants=inv)
     run_inst_suite('C06', v, acc, 'C06-steps-255', 'MCFm', c([2, 4]), w1, 7 if q else 9, seed, owns, ['C06'], invariants=inv)
+    # the serial-number comparison has a second seam at 32767 -> 32768
+    run_inst_suite('C06', v, acc, 'C06-mid-wrap', 'MCFm', c([2], Start2=32766), w1, 8 if q else 11, seed, owns, ['C06'], invariants=inv)
+    # Announces of a sibling port of the own instance (same clock identity) never enter the list
+    run_inst_suite('C06', v, acc, 'C06-sibling', 'MCFm', c([2], Sibling=True), w1, 7 if q else 9, seed, owns, ['C06'], invariants=inv)
     run_inst_suite('C06', v, acc, 'C06-three-masters-sim', 'MCFm', c([2, 3, 9]), w1, 70, seed, owns, ['C06'], invariants=inv,
                    simulate=(15 if q else 300, 60))
     if not q:
@@ -289,6 +302,8 @@ def check_C06(tier, seed):
     plain_tlc('C06', v, acc, 'C06-intended-design', 'MCFm', c([2, 9], DevDup=False, Depth=8 if q else 10), invariants=inv + ['NeedTwoDistinct'])
     # ... the code's behaviour (a repeated sequenceId is stored again) does not: recorded finding, any other counterexample is new
     plain_tlc('C06', v, acc, 'C06-as-implemented-strict', 'MCFm', c([2], Depth=5), invariants=['NeedTwoDistinct'], expect_violation='NeedTwoDistinct')
+    # Binding B: recorded random histories of the real instance validated against TraceInstance.tla
+    run_inst_traces('C06', v, acc, ['snap.fml', 'pst', 'ppi'], tier, seed, variants=('A', 'M'))
     return finish('C06', tier, seed, 'model_checking', v, acc, t0, EDGE_RULE,
                   COMMON_ASSUME + ['the announce interval equals the BMCA interval (ages advance by one per BMCA run)',
                                    'arrival patterns: per epoch and master any mix of next / duplicate / stale / skipped sequence ids, ids straddling 65535->0'],
@@ -341,6 +356,8 @@ def check_C09(tier, seed):
             run_inst_suite('C09', v, acc, 'C09-two-syncs-seed%d' % sd, 'MCPort', port_consts(fam, Prefix=('<-', 'PrefixSlave')), w, 8, sd, owns, ['C09'], invariants=inv)
         run_inst_suite('C09', v, acc, 'C09-sim', 'MCPort', port_consts(fam + ['annP', 'bmca', 'trcpt'], Prefix=('<-', 'PrefixSlave'), NSync=3, NDelay=3, TwoStepSet='{1, 3}'),
                        w, 60, seed, owns, ['C09'], invariants=inv, simulate=(200, 40))
+    # Binding B: recorded random histories of the real instance validated against TraceInstance.tla
+    run_inst_traces('C09', v, acc, ['flt'], tier, seed, variants=('A', 'D'))
     return finish('C09', tier, seed, 'model_checking', v, acc, t0,
                   EDGE_RULE + '; measurements are symbolic expression trees over named timestamps/corrections in the specification and are evaluated '
                   'with per-seed concrete 128-bit values (sub-nanosecond parts, second boundaries, both signs of corrections and asymmetry) '
@@ -379,6 +396,8 @@ def check_C10(tier, seed):
     acc.events += wrap.get('calls', 0)
     for item in wrap.get('violations', []):
         v.add({'kind': 'predicate', 'key': 'C10/seqwrap', 'detail': item['detail'], 'replay': item['replay']})
+    # Binding B: recorded random histories of the real instance validated against TraceInstance.tla
+    run_inst_traces('C10', v, acc, ['out.Sync', 'out.FollowUp', 'out.DelayResp', 'out.PdelayResp', 'out.PdelayRespFup', 'out.DelayReq', 'out.PdelayReq', 'out.len', 'snap.nseq'], tier, seed, variants=('A', 'D'))
     return finish('C10', tier, seed, 'model_checking', v, acc, t0,
                   EDGE_RULE + '; transmit/receive timestamps and correction fields are named symbols in the specification, concretised per seed over the 80-bit '
                   'range with sub-nanosecond fractions; "timestamp + correction" of an emitted frame must equal the symbolic sum to 2^-16 ns',
@@ -418,6 +437,8 @@ def check_C14(tier, seed):
     if not q:
         run_inst_suite('C14', v, acc, 'C14-sim', 'MCPort', port_consts(fam + ['pdfupB', 'tann', 'tsync', 'trcpt', 'annP', 'bmca'], PCfg=('<-', 'PCfg_P'), NPd=4), wp,
                        60, seed, owns, ['C14'], invariants=inv, properties=props_, simulate=(200, 40))
+    # Binding B: recorded random histories of the real instance validated against TraceInstance.tla
+    run_inst_traces('C14', v, acc, ['flt', 'pst', 'clk'], tier, seed, variants=('D',))
     return finish('C14', tier, seed, 'model_checking', v, acc, t0, EDGE_RULE + '; peer delay values are symbolic forms evaluated per seed and compared bit-exactly',
                   COMMON_ASSUME + ['two responders (one two-step, one one-step), two consecutive requests, every message up to twice in any order'])
 
@@ -441,9 +462,30 @@ def check_C11(tier, seed):
     if not q:
         run_inst_suite('C11', v, acc, 'C11-sim', 'MCPort', port_consts(fam + ['so'], PCfg=('<-', 'PCfg_A'), AnnVar='{1, 2, 3, 4}'), w2,
                        50, seed, owns, ['C11'], invariants=inv, properties=props_, simulate=(300, 40))
+    # Binding B: recorded random histories of the real instance validated against TraceInstance.tla
+    run_inst_traces('C11', v, acc, ['out.Announce', 'gm', 'steps', 'tp', 'ppi'], tier, seed, variants=('A', 'B'))
     return finish('C11', tier, seed, 'model_checking', v, acc, t0, EDGE_RULE,
                   COMMON_ASSUME + ['parent Announce contents range over four variants (grandmaster record, stepsRemoved 0/1/254, every leap/traceable flag, '
                                    'utc offset valid/invalid/negative, three time sources); the byte-level field mapping is checked through the independent decoder'])
+
+
+def c07_noise_owns(fld, ev, prev, var):
+    """Binding B for C07: a departure counts iff the call that departs delivered traffic the port has to ignore"""
+    e = ev.get('e')
+    if e not in ('ann', 'sync', 'fup', 'dresp', 'sig'):
+        return False
+    if any(k in ev for k in ('dom', 'sdo', 'ver')) or e == 'sig':
+        return True
+    p = ev.get('p', 1)
+    if e == 'ann':
+        if ev['src'] == [5, p]:
+            return True
+        return var == 'D' and p == 1 and ev['src'][0] not in (2, 9)          # outside the acceptable master list of that port
+    if prev is None:
+        return True
+    if prev['pst'][p - 1] != 'S' or ev['src'] != prev['ppi']:
+        return True
+    return e == 'dresp' and ev.get('req') != [5, p]
 
 
 def check_C07(tier, seed):
@@ -475,6 +517,8 @@ def check_C07(tier, seed):
     acc.edges += tr.get('runs', 0)
     for item in tr.get('violations', []):
         v.add({'kind': 'predicate', 'key': 'C07/tworun', 'detail': item['detail'], 'replay': item['replay']})
+    # Binding B: recorded random histories of the real instance validated against TraceInstance.tla
+    run_inst_traces('C07', v, acc, c07_noise_owns, tier, seed, variants=('A', 'D'))
     return finish('C07', tier, seed, 'model_checking', v, acc, t0,
                   EDGE_RULE + '; plus randomised two-run histories (with / without the inserted frames) compared in lock-step',
                   COMMON_ASSUME + ['noise families: other domain, other sdoId, versionPTP 1, truncated frame, messageLength < 34, Signaling, Management, Announce from an '
@@ -529,6 +573,8 @@ def check_C12(tier, seed):
     acc.edges += hs.get('runs', 0)
     for item in hs.get('violations', []):
         v.add({'kind': 'predicate', 'key': 'C12/hostsim' + ('-orphan-recovered' if item.get('known') else ''), 'detail': item['detail'], 'replay': item['replay']})
+    # Binding B: recorded random histories of the real instance validated against TraceInstance.tla
+    run_inst_traces('C12', v, acc, ['out.T', 'pend', 'out.len'], tier, seed, variants=('A', 'D'))
     return finish('C12', tier, seed, 'model_checking', v, acc, t0,
                   EDGE_RULE + '; plus virtual-time continuations of random real histories with (a) silence and (b) a steady better master',
                   COMMON_ASSUME + ['the host arms exactly the timers the returned actions request and a timer fires only while armed (statime-linux main.rs)',
@@ -576,6 +622,8 @@ def check_C15(tier, seed):
     acc.events += ov.get('calls', 0)
     for item in ov.get('violations', []):
         v.add({'kind': 'predicate', 'key': 'C15/fwdlag', 'detail': item['detail'], 'replay': item['replay']})
+    # Binding B: recorded random histories of the real instance validated against TraceInstance.tla
+    run_inst_traces('C15', v, acc, ['out.F', 'out.Announce.tlvs', 'path'], tier, seed, variants=('B',))
     return finish('C15', tier, seed, 'model_checking', v, acc, t0,
                   EDGE_RULE + '; TLVs are abstract [type, value length, tag] records with integer room accounting; the replay uses the real TlvForwarder',
                   COMMON_ASSUME + ['the host forwards ForwardTLV actions to every port\'s receiver and never empties a receiver (UDP port task of the daemon); '
@@ -618,6 +666,8 @@ def check_C03(tier, seed):
             if 'nested acquisition' in item['detail']:
                 continue        # C17's alarm
             v.add({'kind': 'predicate', 'key': 'C03/robust', 'detail': item['detail'], 'replay': item['replay']})
+    # Binding B: recorded random histories of the real instance validated against TraceInstance.tla
+    run_inst_traces('C03', v, acc, ['panic'], tier, seed, variants=('A', 'B', 'D', 'M'))
     return finish('C03', tier, seed, 'exploration', v, acc, t0,
                   'model-derived: TLC enumerates (reachable abstract state, boundary-class input) edges - correction fields {min, max, +-1 ns, +-1 unit, 0}, timestamps '
                   '{0, 1 ns, sub-ns only, second carry, 2^48 s - 1, 2^63 ns - 1}, stepsRemoved {254, 255, 65535}, path trace lengths {1, 127, 128, 129, 200}, TLV sizes around '
@@ -1136,6 +1186,139 @@ def check_C19(tier, seed):
 
 
 
+# ------------------------------------------------------------------------------------------------ Binding B for the instance specification
+
+INST_TRACE_VARIANTS = {
+    # variant of harness/src/bin/record.rs -> constants of specs/TraceInstance.tla
+    'A': {'PCfg': ('<-', 'TI_PCfg_A'), 'PTrace': False},     # two ordinary E2E ports
+    'B': {'PCfg': ('<-', 'TI_PCfg_B'), 'PTrace': True},      # path trace on, port 2 master-only
+    'D': {'PCfg': ('<-', 'TI_PCfg_D'), 'PTrace': False},     # acceptable master list on port 1, P2P port 2, master-only port 3
+    'M': {'PCfg': ('<-', 'TI_PCfg_A'), 'PTrace': False},     # as A, Announces from fourteen distinct sources (the list holds eight)
+}
+INST_TRACE_INVARIANTS = ['OneSlave', 'MasterOnlyNeverSlave', 'ParentQualified']
+
+
+def _split_runs(lines):
+    """[(first line index, last line index exclusive)] of the runs of a recorded trace (a run starts at a reset line)"""
+    starts = [i for i, l in enumerate(lines) if l.startswith('{"e":"reset"') or '"e":"reset"' in l[:40]]
+    return [(a, b) for a, b in zip(starts, starts[1:] + [len(lines)])]
+
+
+def run_inst_traces(prop, verdict, acc, owns, tier, seed, variants=('A', 'B', 'D'), events=None, invariants=INST_TRACE_INVARIANTS):
+    """Binding B: long random histories of host calls on a real PtpInstance are recorded (one line per public call: the abstract
+    event and the projected post-state) and TLC accepts a trace iff every step is the step Instance.tla takes. A departure names
+    the fields that differ; the ownership rule decides whether it is a violation of `prop`; validation resumes at the next run."""
+    q = tier == 'quick'
+    events = events or (20000 if q else 200000)
+    td = outdir('traces', prop + '-inst'); vlib.clean_dir(td)
+    keepdir = outdir('replay', prop + '-insttrace'); vlib.clean_dir(keepdir)
+    total = {'events_validated': 0, 'runs': 0, 'departures': {}, 'foreign': {}, 'variants': list(variants)}
+    for var in variants:
+        tr = os.path.join(td, 'inst-%s.ndjson' % var)
+        r = subprocess.run([binpath('record'), '--variant', var, '--seed', str(seed), '--events', str(events), '--runlen', '400', '--trace', tr, '--replay-dir', keepdir],
+                           cwd=ROOT, stdout=subprocess.PIPE, stderr=subprocess.PIPE, text=True, timeout=1800)
+        if r.returncode != 0:
+            raise ToolError('record failed: %s' % (r.stderr or r.stdout)[-1500:])
+        rep = json.loads(r.stdout)
+        total['runs'] += rep['runs']
+        if rep.get('panics'):
+            if not callable(owns) and vlib.owned('panic', owns):
+                for it in rep.get('panic_keeps', []):
+                    verdict.add({'kind': 'panic', 'key': 'panic', 'detail': 'recorded run (variant %s) panicked: %s (last event %s)' % (var, str(it.get('panic'))[:200], json.dumps(it.get('last'))[:200]),
+                                 'replay': it['replay'], 'suite': prop + '-insttrace', 'count': 1})
+            else:
+                verdict.notes.append('record (%s): %d runs ended in a panic of the code under test (reported by C03)' % (var, rep['panics']))
+        total['panics'] = total.get('panics', 0) + rep.get('panics', 0)
+        lines = open(tr).read().splitlines()
+        runs = _split_runs(lines)
+        consts = {'Own': ('<-', 'TI_Own'), 'OwnP': ('<-', 'TI_OwnP'), 'Q0': ('<-', 'TI_Q0'), 'TP0': ('<-', 'TI_TP0'), 'SO0': False, 'Fwd': False,
+                  'EmptyOnBmca': False, 'DevDup': True, 'SeqMod': 65536, 'Ghost': True}
+        consts.update(INST_TRACE_VARIANTS[var])
+        cfg = os.path.join(outdir('cfg'), '%s-insttrace-%s.cfg' % (prop, var))
+        write_cfg(cfg, spec='TSpec', constants=consts, invariants=invariants, postcondition='Accepted')
+        start = 0          # index of the first line still to validate
+        rounds = 0
+        CH = 20000         # lines per TLC run
+        while start < len(lines) and rounds < 40:
+            rounds += 1
+            # a chunk ends at a run boundary
+            end = len(lines)
+            for a, b in runs:
+                if a >= start + CH:
+                    end = a
+                    break
+            part = os.path.join(td, 'part-%s-%d.ndjson' % (var, rounds))
+            open(part, 'w').write('\n'.join(lines[start:end]) + '\n')
+            name = '%s-insttrace-%s-%d' % (prop, var, rounds)
+            stats, text = run_tlc('TraceInstance.tla', cfg, name, workers=1, timeout=1800, env={'TRACE': part},
+                                  jvm=['-Xss1g', '-Dtlc2.tool.queue.IStateQueue=StateDeque'], xmx='4g')
+            acc.states += stats['distinct']; acc.transitions += stats['generated']
+            if 'No error has been found' in text and 'MISMATCH' not in text:
+                total['events_validated'] += end - start
+                start = end
+                os.remove(part)
+                continue
+            m = re.search(r'"MISMATCH",\s*(\d+),\s*\{([^}]*)\}', text)
+            viol = stats['violated']
+            if not m and not viol:
+                raise ToolError('trace validation %s: %s' % (name, (stats['errors'] or [text[-600:]])[:2]))
+            if m:
+                k = start + int(m.group(1)) - 1                 # index (0-based) of the line that departs
+                fields = sorted(x.strip().strip('"') for x in m.group(2).split(',') if x.strip())
+            else:
+                # an invariant of the trace configuration is false in an observed state
+                k = start + max(stats['generated'] - 2, 0)
+                fields = ['inv:' + x for x in viol]
+            total['events_validated'] += k - start
+            a, b = next((a, b) for a, b in runs if a <= k < b)
+            reset = json.loads(lines[a])
+            evs = [json.loads(l)['ev'] for l in lines[a + 1:k + 1]]
+            keep = os.path.join(keepdir, 'departure-%s-%d.json' % (var, k + 1))
+            json.dump({'kind': 'insttrace', 'property': prop, 'variant': var, 'cfg': reset.get('cfg'), 'events': evs, 'fields': fields,
+                       'observed': json.loads(lines[k]).get('obs') if k < len(lines) else None}, open(keep, 'w'))
+            for fld in fields:
+                total['departures'][fld] = total['departures'].get(fld, 0) + 1
+                mine = owns(fld, evs[-1] if evs else {}, json.loads(lines[k - 1]).get('obs') if k - 1 > a else None, var) if callable(owns) else vlib.owned(fld, owns)
+                if (fld.startswith('inv:') and not callable(owns)) or mine:
+                    verdict.add({'kind': 'trace', 'key': ('trace:' + fld) if fld.startswith('inv:') else fld,
+                                 'detail': 'recorded execution (variant %s, run of %d calls, last %s) is not a behaviour of Instance.tla: departs in %s'
+                                           % (var, len(evs), json.dumps(evs[-1])[:200] if evs else '-', fields), 'replay': keep, 'suite': name, 'count': 1})
+                else:
+                    total['foreign'][fld] = total['foreign'].get(fld, 0) + 1
+            start = b        # resume at the next run
+            os.remove(part)
+    acc.edges += total['events_validated']
+    acc.events += total['events_validated']
+    acc.suites.append({'suite': prop + '-insttrace', 'driver': 'harness/src/bin/record.rs', 'validated_by': 'specs/TraceInstance.tla', **total})
+    if total['foreign']:
+        verdict.notes.append('instance traces: departures in fields not owned by %s (reported by their owners): %s' % (prop, total['foreign']))
+    return total
+
+
+def replay_insttrace(path):
+    """bin/check replay <departure file>: the kept events are executed again on a fresh real instance and validated again"""
+    keep = json.load(open(path))
+    td = outdir('traces', 'replay'); vlib.clean_dir(td)
+    tr = os.path.join(td, 'rerun.ndjson')
+    r = subprocess.run([binpath('record'), '--rerun', path, '--trace', tr], cwd=ROOT, stdout=subprocess.PIPE, text=True, timeout=600)
+    print(r.stdout.strip())
+    var = keep['variant']
+    consts = {'Own': ('<-', 'TI_Own'), 'OwnP': ('<-', 'TI_OwnP'), 'Q0': ('<-', 'TI_Q0'), 'TP0': ('<-', 'TI_TP0'), 'SO0': False, 'Fwd': False,
+              'EmptyOnBmca': False, 'DevDup': True, 'SeqMod': 65536, 'Ghost': True}
+    consts.update(INST_TRACE_VARIANTS[var])
+    cfg = os.path.join(outdir('cfg'), 'replay-insttrace.cfg')
+    write_cfg(cfg, spec='TSpec', constants=consts, invariants=INST_TRACE_INVARIANTS, postcondition='Accepted')
+    stats, text = run_tlc('TraceInstance.tla', cfg, 'replay-insttrace', workers=1, timeout=600, env={'TRACE': tr},
+                          jvm=['-Xss1g', '-Dtlc2.tool.queue.IStateQueue=StateDeque'], xmx='4g')
+    if 'No error has been found' in text and 'MISMATCH' not in text:
+        print('accepted: the re-executed run is a behaviour of Instance.tla')
+        return 0
+    m = re.search(r'"MISMATCH",\s*(\d+),\s*\{([^}]*)\}', text)
+    print('REJECTED: %s' % (('line %s departs in {%s}' % (m.group(1), m.group(2))) if m else stats['violated'] or stats['errors'][:2]))
+    print('last event: %s' % json.dumps(keep['events'][-1] if keep['events'] else None))
+    return 1
+
+
 # ------------------------------------------------------------------------------------------------ C13
 
 def validate_trace(module, trace_path, name, timeout=600):
@@ -1147,9 +1330,11 @@ def validate_trace(module, trace_path, name, timeout=600):
         return True, '', stats
     m = None
     import re
-    m = re.search(r'"REJECTED at line", (\d+), (.*)', text)
+    m = re.search(r'"REJECTED at line",\s*(\d+),\s*(.*)', text, re.S)
     if m:
-        return False, 'line %s: %s' % (m.group(1), m.group(2)[:300]), stats
+        return False, 'line %s: %s' % (m.group(1), ' '.join(m.group(2).split())[:300]), stats
+    if re.search(r'Postcondition \S+ .*is false', text, re.S) or stats['violated']:
+        return False, 'rejected: ' + '; '.join(stats['violated'] or ['postcondition false']), stats
     if stats['errors']:
         raise ToolError('trace validation %s: %s' % (name, stats['errors'][:2]))
     return False, 'rejected (no position reported)', stats
@@ -1281,38 +1466,57 @@ def check_C02(tier, seed):
 
 # ------------------------------------------------------------------------------------------------ C01
 
-NET_NODE = lambda p1, cls=248, so=False, nports=1: {'p1': p1, 'class': cls, 'so': so, 'nports': nports}
+NET_NODE = lambda p1, cls=248, so=False, nports=1, p2=128: {'p1': p1, 'class': cls, 'so': so, 'nports': nports, 'p2': p2}
+
+
+def NET(n, topo, prio, cls, so, npp, nodes, wtopo, prio2=None, cut0=None, wcut0=()):
+    return {'n': n, 'topo': topo, 'prio': prio, 'cls': cls, 'so': so, 'npp': npp, 'nodes': nodes, 'wtopo': wtopo,
+            'prio2': prio2 or {2: 'P2_2', 3: 'P2_3', 4: 'P2_4'}[n], 'cut0': cut0 or 'NoCut', 'wcut0': list(wcut0)}
+
+
+LINK = [[[1, 1], [2, 1]]]
+RING3 = [[[1, 1], [2, 1]], [[2, 2], [3, 1]], [[3, 2], [1, 2]]]
 NETS = {
-    # name: (N, Topo, Prio, Class, SlaveOnly, NPorts, world nodes, world topo)
-    'link-12': (2, 'Topo_Link', 'Prio_12', 'Cls_2', 'So_2', 'NP_11', [NET_NODE(100), NET_NODE(200)], [[[1, 1], [2, 1]]]),
-    'link-21': (2, 'Topo_Link', 'Prio_21', 'Cls_2', 'So_2', 'NP_11', [NET_NODE(200), NET_NODE(100)], [[[1, 1], [2, 1]]]),
-    'link-eq': (2, 'Topo_Link', 'Prio_Eq2', 'Cls_2', 'So_2', 'NP_11', [NET_NODE(128), NET_NODE(128)], [[[1, 1], [2, 1]]]),
-    'link-lowclass': (2, 'Topo_Link', 'Prio_12', 'Cls_2low', 'So_2', 'NP_11', [NET_NODE(100), NET_NODE(200, cls=6)], [[[1, 1], [2, 1]]]),
+    'link-12': NET(2, 'Topo_Link', 'Prio_12', 'Cls_2', 'So_2', 'NP_11', [NET_NODE(100), NET_NODE(200)], LINK),
+    'link-21': NET(2, 'Topo_Link', 'Prio_21', 'Cls_2', 'So_2', 'NP_11', [NET_NODE(200), NET_NODE(100)], LINK),
+    'link-eq': NET(2, 'Topo_Link', 'Prio_Eq2', 'Cls_2', 'So_2', 'NP_11', [NET_NODE(128), NET_NODE(128)], LINK),
+    # priority2 decides
+    'link-p2': NET(2, 'Topo_Link', 'Prio_Eq2', 'Cls_2', 'So_2', 'NP_11', [NET_NODE(128, p2=127), NET_NODE(128, p2=126)], LINK, prio2='P2_2dec'),
+    'link-lowclass': NET(2, 'Topo_Link', 'Prio_12', 'Cls_2low', 'So_2', 'NP_11', [NET_NODE(100), NET_NODE(200, cls=6)], LINK),
     # a slave-only node ranks below the master-capable ones (IEEE 1588: clockClass 255); one whose own data set ranks above every announced
     # master is recommended M2 and stays LISTENING (Figure 31) - a configuration outside the property, see DESIGN.md
-    'link-slaveonly': (2, 'Topo_Link', 'Prio_12', 'Cls_2so', 'So_2b', 'NP_11', [NET_NODE(100), NET_NODE(200, cls=255, so=True)], [[[1, 1], [2, 1]]]),
-    'link-slaveonly-eqprio': (2, 'Topo_Link', 'Prio_Eq2', 'Cls_2so', 'So_2b', 'NP_11', [NET_NODE(128), NET_NODE(128, cls=255, so=True)], [[[1, 1], [2, 1]]]),
-    'parallel': (2, 'Topo_Par', 'Prio_12', 'Cls_2', 'So_2', 'NP_22', [NET_NODE(100, nports=2), NET_NODE(200, nports=2)], [[[1, 1], [2, 1]], [[1, 2], [2, 2]]]),
-    'multi': (2, 'Topo_Multi', 'Prio_12', 'Cls_2', 'So_2', 'NP_21', [NET_NODE(100, nports=2), NET_NODE(200)], [[[1, 1], [1, 2], [2, 1]]]),
-    'chain3': (3, 'Topo_Chain3', 'Prio_321', 'Cls_3', 'So_3', 'NP_121', [NET_NODE(200), NET_NODE(150, nports=2), NET_NODE(100)], [[[1, 1], [2, 1]], [[2, 2], [3, 1]]]),
-    'star3': (3, 'Topo_Star3', 'Prio_213', 'Cls_3', 'So_3', 'NP_211', [NET_NODE(150, nports=2), NET_NODE(100), NET_NODE(200)], [[[1, 1], [2, 1]], [[1, 2], [3, 1]]]),
-    'ring3': (3, 'Topo_Ring3', 'Prio_123', 'Cls_3', 'So_3', 'NP_222', [NET_NODE(100, nports=2), NET_NODE(150, nports=2), NET_NODE(200, nports=2)], [[[1, 1], [2, 1]], [[2, 2], [3, 1]], [[3, 2], [1, 2]]]),
-    'shared3': (3, 'Topo_Shared3', 'Prio_213', 'Cls_3so', 'So_3c', 'NP_111', [NET_NODE(150), NET_NODE(100), NET_NODE(200, cls=255, so=True)], [[[1, 1], [2, 1], [3, 1]]]),
-    'chain4': (4, 'Topo_Chain4', 'Prio_3142', 'Cls_4', 'So_4', 'NP_1221', [NET_NODE(200), NET_NODE(100, nports=2), NET_NODE(250, nports=2), NET_NODE(150)], [[[1, 1], [2, 1]], [[2, 2], [3, 1]], [[3, 2], [4, 1]]]),
-    'ring4': (4, 'Topo_Ring4', 'Prio_1234', 'Cls_4', 'So_4', 'NP_2222', [NET_NODE(100, nports=2), NET_NODE(150, nports=2), NET_NODE(200, nports=2), NET_NODE(250, nports=2)],
-              [[[1, 1], [2, 1]], [[2, 2], [3, 1]], [[3, 2], [4, 1]], [[4, 2], [1, 2]]]),
+    'link-slaveonly': NET(2, 'Topo_Link', 'Prio_12', 'Cls_2so', 'So_2b', 'NP_11', [NET_NODE(100), NET_NODE(200, cls=255, so=True)], LINK),
+    'link-slaveonly-eqprio': NET(2, 'Topo_Link', 'Prio_Eq2', 'Cls_2so', 'So_2b', 'NP_11', [NET_NODE(128), NET_NODE(128, cls=255, so=True)], LINK),
+    'parallel': NET(2, 'Topo_Par', 'Prio_12', 'Cls_2', 'So_2', 'NP_22', [NET_NODE(100, nports=2), NET_NODE(200, nports=2)], [[[1, 1], [2, 1]], [[1, 2], [2, 2]]]),
+    # the second of two parallel links comes up after the network has converged over the first
+    'parallel-restore': NET(2, 'Topo_Par', 'Prio_12', 'Cls_2', 'So_2', 'NP_22', [NET_NODE(100, nports=2), NET_NODE(200, nports=2)], [[[1, 1], [2, 1]], [[1, 2], [2, 2]]],
+                            cut0='Cut_Par', wcut0=[1]),
+    'multi': NET(2, 'Topo_Multi', 'Prio_12', 'Cls_2', 'So_2', 'NP_21', [NET_NODE(100, nports=2), NET_NODE(200)], [[[1, 1], [1, 2], [2, 1]]]),
+    'chain3': NET(3, 'Topo_Chain3', 'Prio_321', 'Cls_3', 'So_3', 'NP_121', [NET_NODE(200), NET_NODE(150, nports=2), NET_NODE(100)], [[[1, 1], [2, 1]], [[2, 2], [3, 1]]]),
+    # priority2 decides and the relay in the middle has the worst one
+    'chain3-p2': NET(3, 'Topo_Chain3', 'Prio_Eq3', 'Cls_3', 'So_3', 'NP_121', [NET_NODE(128, p2=100), NET_NODE(128, nports=2, p2=128), NET_NODE(128, p2=110)],
+                     [[[1, 1], [2, 1]], [[2, 2], [3, 1]]], prio2='P2_3relay'),
+    'star3': NET(3, 'Topo_Star3', 'Prio_213', 'Cls_3', 'So_3', 'NP_211', [NET_NODE(150, nports=2), NET_NODE(100), NET_NODE(200)], [[[1, 1], [2, 1]], [[1, 2], [3, 1]]]),
+    'ring3': NET(3, 'Topo_Ring3', 'Prio_123', 'Cls_3', 'So_3', 'NP_222', [NET_NODE(100, nports=2), NET_NODE(150, nports=2), NET_NODE(200, nports=2)], RING3),
+    # the ring starts as a chain (link 3-1 down), converges, then the closing link comes up: a slave port has to turn passive
+    'ring3-restore': NET(3, 'Topo_Ring3', 'Prio_123', 'Cls_3', 'So_3', 'NP_222', [NET_NODE(100, nports=2), NET_NODE(150, nports=2), NET_NODE(200, nports=2)], RING3,
+                         cut0='Cut_Ring3', wcut0=[2]),
+    'shared3': NET(3, 'Topo_Shared3', 'Prio_213', 'Cls_3so', 'So_3c', 'NP_111', [NET_NODE(150), NET_NODE(100), NET_NODE(200, cls=255, so=True)], [[[1, 1], [2, 1], [3, 1]]]),
+    'chain4': NET(4, 'Topo_Chain4', 'Prio_3142', 'Cls_4', 'So_4', 'NP_1221', [NET_NODE(200), NET_NODE(100, nports=2), NET_NODE(250, nports=2), NET_NODE(150)],
+                  [[[1, 1], [2, 1]], [[2, 2], [3, 1]], [[3, 2], [4, 1]]]),
+    'ring4': NET(4, 'Topo_Ring4', 'Prio_1234', 'Cls_4', 'So_4', 'NP_2222', [NET_NODE(100, nports=2), NET_NODE(150, nports=2), NET_NODE(200, nports=2), NET_NODE(250, nports=2)],
+                 [[[1, 1], [2, 1]], [[2, 2], [3, 1]], [[3, 2], [4, 1]], [[4, 2], [1, 2]]]),
 }
 
 
-def net_consts(name, K, faults='NoFaults', keep=False, depth=0, T=2):
-    n, topo, prio, cls, so, npp, _, _ = NETS[name]
-    return {'N': n, 'Topo': ('<-', topo), 'Prio': ('<-', prio), 'Class': ('<-', cls), 'SlaveOnly': ('<-', so), 'NPorts': ('<-', npp), 'T': T, 'K': K,
-            'Faults': ('<-', faults), 'KeepHist': keep, 'Depth': depth}
+def net_consts(name, K, faults='NoFaults', keep=False, depth=0, T=2, force=False):
+    d = NETS[name]
+    return {'N': d['n'], 'Topo': ('<-', d['topo']), 'Prio': ('<-', d['prio']), 'Prio2': ('<-', d['prio2']), 'Class': ('<-', d['cls']), 'SlaveOnly': ('<-', d['so']),
+            'NPorts': ('<-', d['npp']), 'T': T, 'K': K, 'Faults': ('<-', faults), 'KeepHist': keep, 'Depth': depth, 'Cut0': ('<-', d['cut0']), 'ForceFault': force}
 
 
 def net_world(name, **kw):
-    _, _, _, _, _, _, nodes, topo = NETS[name]
-    d = {'nodes': nodes, 'topo': topo, 'timeout': 2}
+    d = {'nodes': NETS[name]['nodes'], 'topo': NETS[name]['wtopo'], 'timeout': 2, 'cut0': NETS[name]['wcut0']}
     d.update(kw)
     return d
 
@@ -1325,7 +1529,7 @@ def check_C01(tier, seed):
     q = tier == 'quick'
     KS = 10
     # (1) exhaustive, complete state graph (no depth bound): two nodes, every ranking variant, with and without one fault
-    plain = [('link-12', 'NoFaults'), ('link-21', 'NoFaults'), ('link-eq', 'NoFaults'), ('link-lowclass', 'NoFaults'), ('link-slaveonly', 'NoFaults'), ('link-slaveonly-eqprio', 'NoFaults')]
+    plain = [('link-12', 'NoFaults'), ('link-21', 'NoFaults'), ('link-eq', 'NoFaults'), ('link-lowclass', 'NoFaults'), ('link-slaveonly', 'NoFaults'), ('link-slaveonly-eqprio', 'NoFaults'), ('link-p2', 'NoFaults')]
     if not q:
         plain += [('link-12', 'AllFaults'), ('link-21', 'AllFaults'), ('parallel', 'NoFaults'), ('link-slaveonly', 'AllFaults'), ('link-lowclass', 'AllFaults')]
     for name, faults in plain:
@@ -1358,9 +1562,12 @@ def check_C01(tier, seed):
     else:
         v.notes.append('C01-multi: the design-level counterexample of the recorded finding was not found')
     # (2) Binding A: every edge of the two-node link graph, and simulated behaviours of three- and four-node networks, on real instances
-    def replay_net(name, consts, simulate=None):
+    # simulated behaviours: the fault is forced as soon as the network has been quiet for K rounds (every behaviour has its fault and its
+    # re-convergence); K for three and four nodes is empirical (150 forced-fault behaviours per topology hold with 14)
+    KSIM = {2: KS, 3: 16, 4: 20}
+    def replay_net(name, consts, simulate=None, invariants=('Settle',)):
         cfgp = os.path.join(outdir('cfg'), name + '.cfg')
-        write_cfg(cfgp, constants=consts, invariants=['Settle'], view='View', constraint='Bound', action_constraint='Emit')
+        write_cfg(cfgp, constants=consts, invariants=list(invariants), view='View', constraint='Bound', action_constraint='Emit')
         wpath = os.path.join(outdir('cfg'), name + '.world.json')
         json.dump(net_world(name.split('-r-')[1]), open(wpath, 'w'))
         rd = outdir('replay', name); vlib.clean_dir(rd)
@@ -1368,7 +1575,7 @@ def check_C01(tier, seed):
         stats, rep = vlib.pipe_tlc('MCNet.tla', cfgp, name, [binpath('netsim'), '--replay', '--cfg', wpath, '--replay-dir', rd], timeout=3400, extra=extra)
         acc.add(name, stats)
         acc.edges += rep['edges']; acc.events += rep['events']
-        acc.suites[-1].update({'edges_replayed': rep['edges'], 'api_calls': rep['events'], 'mismatch_by_field': rep['mismatch_by_field']})
+        acc.suites[-1].update({'edges_replayed': rep['edges'], 'api_calls': rep['events'], 'mismatch_by_field': rep['mismatch_by_field'], 'last_event_kinds': rep.get('last_event_kinds')})
         acc.samples += rep.get('samples', [])[:2]
         if stats['violated']:
             stats_t = dict(stats)
@@ -1379,14 +1586,20 @@ def check_C01(tier, seed):
     if not q:
         replay_net('C01-r-link-21', net_consts('link-21', KS, 'AllFaults', keep=True, depth=400))
         replay_net('C01-r-parallel', net_consts('parallel', KS, keep=True, depth=40))
-    for name in (['chain3', 'shared3'] if q else ['chain3', 'star3', 'ring3', 'shared3', 'chain4', 'ring4']):
-        replay_net('C01-r-' + name, net_consts(name, 40, 'AllFaults', keep=True, depth=700), simulate=(4 if q else 60, 600))
+    for name in (['chain3', 'shared3', 'chain3-p2'] if q else ['chain3', 'star3', 'ring3', 'shared3', 'chain4', 'ring4', 'chain3-p2']):
+        replay_net('C01-r-' + name, net_consts(name, KSIM[NETS[name]['n']], 'AllFaults', keep=True, depth=900, force=True), simulate=(4 if q else 60, 800))
+    # a link that comes up after the network has converged without it (a slave port has to turn passive)
+    for name in (['ring3-restore'] if q else ['ring3-restore', 'parallel-restore']):
+        replay_net('C01-r-' + name, net_consts(name, KSIM[NETS[name]['n']], 'RestoreFaults', keep=True, depth=900, force=True), simulate=(4 if q else 60, 800))
+    # two ports of one instance on one segment: the model (which flaps, recorded finding) is still what the code does, edge by edge
+    replay_net('C01-r-multi', net_consts('multi', 40, keep=True, depth=400), simulate=(3 if q else 40, 300), invariants=())
     # (3) Binding B: free-running simulations of real instances (real timer durations, delays, drift, one fault), validated by TraceNet
     td = outdir('traces', 'C01'); vlib.clean_dir(td)
     free = [('chain3', {'kind': 'silence', 'n': 3}), ('ring3', {'kind': 'cut', 'seg': 0}), ('shared3', {'kind': 'quality', 'n': 1}), ('chain4', {'kind': 'silence', 'n': 2}),
+            ('ring3-restore', {'kind': 'restore', 'seg': 2}), ('chain3-p2', {'kind': 'silence', 'n': 3}),
             ('ring4', {'kind': 'quality', 'n': 4}), ('link-lowclass', {'kind': 'silence', 'n': 1}), ('parallel', {'kind': 'cut', 'seg': 1})]
     runs = 0
-    for i, (name, fault) in enumerate(free if not q else free[:4]):
+    for i, (name, fault) in enumerate(free if not q else free[:6]):
         for sd in range(1 if q else 6):
             w = net_world(name, timeout=3, quiet_rounds=16, fault_at_s=70, fault=fault, max_delay_ms=[1, 50, 400][(i + sd) % 3])
             wp = os.path.join(td, 'free-%s-%d.json' % (name, sd))
